@@ -43,6 +43,7 @@ EXPECT = [
     ("NewMapJson returned a partly filled", ["C15"]),
     ("element named like a reserved key", ["C15"]),
     ("namespace prefix contains", ["C15"]),
+    ("dropped a top-level empty key", ["C08"]),
 ]
 
 
